@@ -428,7 +428,12 @@ pub fn make_base(name: &str, spec: &ContainerSpec, scratch: &Path, other: Vec<u8
 /// A container assembled with the low-level creators: manifest, directory pack and TWO content
 /// packs in one file, all recorded with the empty location (BasicCreator never produces this
 /// shape; `jbk concat`-like tools and custom creators do).
-pub fn make_multi_pack_base(name: &str, comp: Comp, seed: u32, scratch: &Path, other: Vec<u8>) -> Result<Base, Failure> {
+/// Hand-assembled containers (low-level creators), every pack carrying free data in the manifest.
+/// `layout` 0: two content packs, directory and manifest in one file. 1: the two content packs
+/// share ONE external file `packs.jbk` (both recorded at that location), directory and manifest
+/// in `a.jbk`. 2: one file whose container pack stores the first content pack TWICE
+/// (content 1, directory, content 1 again, content 2, manifest).
+pub fn make_multi_pack_base(name: &str, comp: Comp, seed: u32, scratch: &Path, other: Vec<u8>, layout: u8) -> Result<Base, Failure> {
     use jubako as jbk;
     let dir = scratch.join(format!("base-{name}"));
     let _ = std::fs::remove_dir_all(&dir);
@@ -447,17 +452,21 @@ pub fn make_multi_pack_base(name: &str, comp: Comp, seed: u32, scratch: &Path, o
             let a = cp.add_content(Box::new(std::io::Cursor::new(b)), if i % 2 == 0 { jbk::creator::CompHint::Yes } else { jbk::creator::CompHint::No }).map_err(io)?;
             addresses.push((a.pack_id.into_u16(), a.content_id.into_u32()));
         }
-        let (file, data) = cp.finalize().map_err(io)?;
+        let (file, mut data) = cp.finalize().map_err(io)?;
+        data.free_data = format!("free data of content pack {pack_id} / {seed:08x}").into_bytes();
         container = file.close(data.uuid).map_err(io)?;
         pack_datas.push(data);
     }
+    let cp_uuids: Vec<uuid::Uuid> = pack_datas.iter().map(|d| d.uuid).collect();
     let dspec = base_spec(1, Packaging::OneFile, comp, seed).dir;
     let dmodel = build_model(&dspec, &addresses);
     let mut dp = jbk::creator::DirectoryPackCreator::new(jbk::PackId::from(0), vendor(), Default::default());
     build_dir(&dmodel).install(&mut dp);
     let fin = dp.finalize().map_err(io)?;
     let mut file = container.into_file().map_err(io)?;
-    let dir_data = fin.write(&mut file).map_err(jb)?;
+    let mut dir_data = fin.write(&mut file).map_err(jb)?;
+    dir_data.free_data = format!("free data of the directory pack / {seed:08x}").into_bytes();
+    let dir_uuid = dir_data.uuid;
     container = file.close(dir_data.uuid).map_err(io)?;
     let mut manifest = jbk::creator::ManifestPackCreator::new(vendor(), Default::default());
     manifest.add_pack(dir_data, "");
@@ -468,11 +477,51 @@ pub fn make_multi_pack_base(name: &str, comp: Comp, seed: u32, scratch: &Path, o
     let muuid = manifest.finalize(&mut file).map_err(jb)?;
     container = file.close(muuid).map_err(io)?;
     container.finalize().map_err(io)?;
-    let data = vec![std::fs::read(path.as_std_path()).unwrap()];
+    let mut files: Vec<String> = vec!["a.jbk".into()];
+    if layout != 0 {
+        // re-assemble the packs of the file just written into the wanted layout
+        let all = dir.join("all.jbk");
+        std::fs::rename(path.as_std_path(), &all).unwrap();
+        let all_bytes = std::fs::read(&all).unwrap();
+        let fd = indep::decode_file(&all_bytes).map_err(|e| Failure::new("create-error", format!("multi-pack base: independent decoder: {e}")))?;
+        let locs = fd.container.as_ref().map(|c| c.locators.clone()).unwrap_or_default();
+        let put = |c: &mut jbk::creator::ContainerPackCreator<_>, u: uuid::Uuid| -> Result<(), Failure> {
+            let (_, size, off) = locs.iter().find(|l| l.0 == *u.as_bytes()).ok_or_else(|| Failure::new("create-error", "pack not found in the assembled file"))?;
+            let mut st = std::io::Cursor::new(all_bytes[*off as usize..(*off + *size) as usize].to_vec());
+            c.add_pack(u, &mut st).map_err(io)
+        };
+        let mut main = jbk::creator::ContainerPackCreator::new(&path, Default::default()).map_err(io)?;
+        if layout == 1 {
+            let ppath = jbk::Utf8PathBuf::from_path_buf(dir.join("packs.jbk")).unwrap();
+            let mut side = jbk::creator::ContainerPackCreator::new(&ppath, Default::default()).map_err(io)?;
+            put(&mut side, cp_uuids[0])?;
+            put(&mut side, cp_uuids[1])?;
+            side.finalize().map_err(io)?;
+            put(&mut main, dir_uuid)?;
+            put(&mut main, muuid)?;
+            main.finalize().map_err(io)?;
+            for u in &cp_uuids {
+                match jbk::tools::set_location(path.as_std_path(), *u, "packs.jbk".into()) {
+                    Ok(Some(_)) => {}
+                    other => return Err(Failure::new("create-error", format!("multi-pack base: set_location: {:?}", other.map(|o| o.is_some()).map_err(|e| e.to_string())))),
+                }
+            }
+            files.push("packs.jbk".into());
+        } else {
+            put(&mut main, cp_uuids[0])?;
+            put(&mut main, dir_uuid)?;
+            put(&mut main, cp_uuids[0])?;
+            put(&mut main, cp_uuids[1])?;
+            put(&mut main, muuid)?;
+            main.finalize().map_err(io)?;
+        }
+        std::fs::remove_file(&all).unwrap();
+    }
+    let data: Vec<Vec<u8>> = files.iter().map(|f| std::fs::read(dir.join(f)).unwrap()).collect();
     let maps = data.iter().map(|d| indep::decode_file(d).ok()).collect();
     Ok(Base {
         name: name.to_string(),
-        files: vec!["a.jbk".into()],
+        files,
         main: "a.jbk".into(),
         index_names: index_names(&dmodel),
         addresses,
@@ -562,7 +611,13 @@ impl Base {
         let mut out = vec![];
         for (fi, m) in self.maps.iter().enumerate() {
             if let Some(m) = m {
-                for p in &m.packs {
+                for (k, p) in m.packs.iter().enumerate() {
+                    // a container pack may store a pack twice (same uuid): the library serves the copy
+                    // stored last; the bytes of an earlier copy are reachable through no entry point
+                    // and nothing is demanded of them
+                    if m.packs[k + 1..].iter().any(|q| q.header.uuid == p.header.uuid) {
+                        continue;
+                    }
                     let uuid = uuid::Uuid::from_bytes(p.header.uuid).to_string();
                     out.push((fi, uuid, p.start, p.start + p.header.check_pos, p.start + p.header.check_pos + 37));
                 }
@@ -681,6 +736,25 @@ pub fn judge_c04(base: &Base, file: usize, uuid: &str, d: &FDump) -> Option<Fail
 
 /// C05: every structural answer equals the pristine one or is an error.
 pub fn judge_c05(pristine: &FDump, d: &FDump) -> Option<Failure> {
+    // the manifest pack opened on its own: what it says about every pack (incl. the free data
+    // kept in its value store) is what was written, or the access failed
+    if let (Some(Acc::Ok(a)), Some(Acc::Ok(b))) = (&d.manifest, &pristine.manifest) {
+        if a.len() != b.len() {
+            return Some(Failure::new("silent-manifest-pack-list", format!("the manifest lists {} packs instead of {}", a.len(), b.len())));
+        }
+        for (x, y) in a.iter().zip(b.iter()) {
+            if (&x.uuid, x.id, &x.kind, x.size, x.group, &x.location) != (&y.uuid, y.id, &y.kind, y.size, y.group, &y.location) {
+                return Some(Failure::new("silent-manifest-pack-info", format!("manifest pack info {:?} instead of {:?}", x, y)));
+            }
+            for (what, fa, fb) in [("get_pack_free_data", &x.free_by_id, &y.free_by_id), ("get_pack_free_data_uuid", &x.free_by_uuid, &y.free_by_uuid)] {
+                if let (Acc::Ok(fa), Acc::Ok(fb)) = (fa, fb) {
+                    if fa != fb {
+                        return Some(Failure::new("silent-manifest-free-data", format!("{what} of pack {} ({}): {fa:?} instead of {fb:?}", y.id, y.uuid)));
+                    }
+                }
+            }
+        }
+    }
     if !matches!(d.open, Some(Acc::Ok(()))) {
         return None; // opening failed with an error
     }
@@ -998,8 +1072,9 @@ pub fn check_cmd(id: &str, tier: Tier) -> i32 {
             }
         }
     }
-    for (k, c) in [Comp::None, Comp::Zstd(3)].iter().enumerate() {
-        match make_multi_pack_base(&format!("M-OneFile-{}-2packs", c.name()), *c, s32 ^ k as u32, scratch.path(), other.clone()) {
+    for (k, (c, layout)) in [(Comp::None, 0u8), (Comp::Zstd(3), 0), (Comp::None, 1), (Comp::Lz4(3), 1), (Comp::None, 2), (Comp::Zstd(3), 2)].iter().enumerate() {
+        let lname = ["OneFile", "SharedExternalFile", "PackStoredTwice"][*layout as usize];
+        match make_multi_pack_base(&format!("M-{lname}-{}-2packs", c.name()), *c, s32 ^ k as u32, scratch.path(), other.clone(), *layout) {
             Ok(b) => bases.push(b),
             Err(f) => {
                 eprintln!("INCONCLUSIVE property={id}: cannot build the multi-pack base: {} {}", f.sig, f.msg);
